@@ -58,6 +58,26 @@ def _val(model, t):
     return str(v)
 
 
+_sk = [0]
+
+
+def _skolemize(g):
+    """to prove (forall x. phi) /\\ ... it suffices to prove phi[c/x] for fresh constants c: removes the outermost universal
+    quantifiers of the goal before it is negated (what the solver would do itself, but stable)"""
+    if z3.is_quantifier(g) and g.is_forall():
+        vs = []
+        for k in range(g.num_vars()):
+            _sk[0] += 1
+            vs.append(z3.Const(f'sk!{_sk[0]}!{g.var_name(k)}', g.var_sort(k)))
+        body = z3.substitute_vars(g.body(), *reversed(vs))
+        return _skolemize(body)
+    if z3.is_and(g):
+        return z3.And(*[_skolemize(c) for c in g.children()])
+    if z3.is_implies(g):
+        return z3.Implies(g.arg(0), _skolemize(g.arg(1)))
+    return g
+
+
 def cvc5_check(smt2, timeout_ms):
     """Second opinion: returns 'unsat' | 'sat' | 'unknown'."""
     path = None
@@ -253,7 +273,7 @@ class Ctx:
             raise PathEnd()
         g = z3bool(goal)
         self.s.push()
-        self.s.add(z3.Not(g))
+        self.s.add(z3.Not(_skolemize(g)))
         self.s.set('timeout', self.cfg.prove_timeout_ms)
         t0 = time.time()
         r = self.s.check()
